@@ -234,6 +234,13 @@ Lemma random_streams_seeded_lemma :
   forallb (fun u => rand_ok (snd u)) threshold_random_uses = true.
 Proof. reflexivity. Qed.
 
+(* premise of S6 (scale invariance of the cut): every function of otsu.py selects the split by EQUALITY with the
+   minimum score, in normalised form (regenerated) *)
+Lemma otsu_selects_exact_minimum_lemma :
+  forallb (fun u => selection_ok (snd u)) otsu_selection = true /\
+  map fst otsu_selection = ["otsu"; "entropy"; "otsu3"; "entropy3"]%string.
+Proof. split; reflexivity. Qed.
+
 (* ------------------------------------------------------------------ checker soundness *)
 
 Lemma in_rangeb_sound lo hi x : in_rangeb lo hi x = true -> in_range lo hi x.
